@@ -23,7 +23,7 @@ CLAIMED = {
             'against position-based reference readers; the real test-case parser (processors._Parser around test_case_parser.new_parser) '
             'on documents over 25 line kinds, every permutation of phase blocks, inclusion graphs incl. cycles and missing files, with '
             'source locations and inclusion chains; one instruction element with description / comments on symbolic text; header-delimited '
-            'blocks with the real instruction set. One known finding (header swallowed by an instruction) excluded by region.', '4/C07'),
+            'blocks with the real instruction set; rendered reports; the source lines of an instruction syntax error for a symbolic indentation and a symbolic number of consumed characters. One known finding (header swallowed by an instruction) excluded by region.', '4/C07'),
     'C17': ('Suite/case contents merging on labelled documents for every subset of phases; leakage between cases on one real executor '
             '(17 kinds of mutation by a misbehaving instruction, symbolic timeouts, fault kinds); the three ways of running a case (suite, '
             '--suite, beside exactly.suite) through the real MainProgram with an absolute oracle on started processes; histories of 2-3 '
@@ -33,7 +33,7 @@ CLAIMED = {
             'classes or SystemExit, through the real integer parser and 14 instruction sites; the instruction-dictionary parser on symbolic '
             'source with a stub parser; regex validator with re.compile raising anything; the real replace transformer on a catalogue of bad '
             'templates; the last-resort nets of executor and processor; the real MainProgram on 331 (quick) / 6111 (thorough) mutants of a '
-            'grammar of 106 valid instructions and on document-level catalogues. One known finding (NUL character in a file name).', '4/C18'),
+            'grammar of 106 valid instructions and on document-level catalogues; termination of the real program (child process under a wall-clock limit) on a catalogue of large integer expressions. Two known findings (NUL character in a file name; an integer expression evaluated without bound, `9**9**9**9`).', '4/C18'),
     'C08': ('Def/reference programs generated from selectors as test-case text, parsed by the real instruction parsers and default actor '
             'and validated by the real parse_atc_and_validate_symbols / validate_symbol_usages with the builtins predefined: accept iff an '
             'independent def/reference interpreter accepts (order, duplicates, builtins, 13 value types x 31 definition forms x 22 '
